@@ -74,6 +74,20 @@ type FileDef struct {
 	Source string    `json:"source,omitempty"` // rendered defs.go (filled by render)
 }
 
+// uses reports whether some trait cell of the file has the given type id (prefix match).
+func (f *FileDef) uses(tyPrefix string) bool {
+	for _, e := range f.Enums {
+		for _, c := range e.Consts {
+			for _, cl := range c.Cells {
+				if strings.HasPrefix(cl.Ty, tyPrefix) {
+					return true
+				}
+			}
+		}
+	}
+	return false
+}
+
 type under struct {
 	name   string
 	signed bool
@@ -534,7 +548,7 @@ func markDupShapes(e *EnumDef, shape map[string]bool) {
 func render(f *FileDef) string {
 	var b strings.Builder
 	fmt.Fprintf(&b, "package %s\n\n", f.Pkg)
-	if f.Traits {
+	if f.uses("time.Duration") {
 		b.WriteString("import tm \"time\"\n\nvar _ = tm.Second\n\n")
 	}
 	for _, e := range f.Enums {
